@@ -80,17 +80,20 @@ def _drive_pow(c):
     else:
         x, one = c["x"][0], 1
     kw = {} if c["one"] == "default" else {"one": one}
+    xb = x.seq() if hasattr(x, "seq") else []
     st, r = _timed(lambda: integer_power(x, c["n"], **kw))
+    xa = x.seq() if hasattr(x, "seq") else []
     if st != "ok":
-        return {"r": st, "t": "", "v": [], "e": r}
+        return {"r": st, "t": "", "v": [], "e": r, "xb": xb, "xa": xa}
     if isinstance(r, (ZMod, Mat2, Word)):
-        return {"r": "ok", "t": "mon", "v": r.seq(), "e": ""}
+        # xb / xa: the caller's element before and after the call
+        return {"r": "ok", "t": "mon", "v": r.seq(), "e": "", "xb": xb, "xa": xa}
     if mon == "rat" and type(r).__name__ == "Fraction" and abs(r.numerator) < 2 ** 30 \
             and r.denominator < 2 ** 30:
-        return {"r": "ok", "t": "mon", "v": [r.numerator, r.denominator], "e": ""}
+        return {"r": "ok", "t": "mon", "v": [r.numerator, r.denominator], "e": "", "xb": xb, "xa": xa}
     if type(r) is int and abs(r) < 2 ** 30:
-        return {"r": "ok", "t": "int", "v": [r], "e": ""}
-    return {"r": "ok", "t": "other", "v": [], "e": type(r).__name__}
+        return {"r": "ok", "t": "int", "v": [r], "e": "", "xb": xb, "xa": xa}
+    return {"r": "ok", "t": "other", "v": [], "e": type(r).__name__, "xb": xb, "xa": xa}
 
 
 # --------------------------------------------------------------- (b) Euclid
